@@ -787,6 +787,78 @@ def check_evset(api, extra):
 
 
 
+def initorder_cases(tier):
+    """An initial state handed to the V2 backend as labelled amplitudes, with the eigenstates listed in either order."""
+    return [("initorder", eig, lab) for eig in (("r", "g"), ("g", "r")) for lab in ("rg", "gr", "rr", "gg", "rg+gg")]
+
+
+def check_initorder(eig, lab):
+    """Nothing is driven, so the emulation ends in the state it started from: the state the LABELS say (or the configuration / run is
+    refused) - never another one because the eigenstates were listed in another order."""
+    from pulser import Pulse, Register, Sequence
+    from pulser.backend import StateResult
+    from pulser_simulation import QutipBackendV2, QutipConfig, QutipState
+
+    dev = world_device()
+    seq = Sequence(Register({"q0": (0.0, 0.0), "q1": (60.0, 0.0)}), dev)
+    seq.declare_channel("c", "rydberg_global")
+    seq.add(Pulse.ConstantPulse(100, 0.0, 0.0, 0.0), "c")
+    amps = {k: 1.0 / math.sqrt(len(lab.split("+"))) for k in lab.split("+")}
+    try:
+        st = QutipState.from_state_amplitudes(eigenstates=tuple(eig), amplitudes=amps)
+        ob = StateResult(evaluation_times=[1.0])
+        r = QutipBackendV2(seq, config=QutipConfig(observables=[ob], initial_state=st)).run()
+        fin = r.get_result(ob, 1.0)
+        probs = {k: float(v) for k, v in fin.probabilities().items() if v > 1e-9}
+    except (NotImplementedError, ValueError, TypeError):
+        return [("@initial-state-refused", "")]
+    want = {k: v * v for k, v in amps.items()}
+    if set(probs) != set(want) or any(abs(probs[k] - want[k]) > 1e-6 for k in want):
+        return [(f"C11:v2-starts-from-another-state-than-the-labelled-one:eigenstates={''.join(eig)}", f"initial amplitudes {amps} with eigenstates {tuple(eig)}: nothing driven, final probabilities {probs}")]
+    return [("@initorder", "")]
+
+
+def initform_cases(tier):
+    """The same initial state handed over in every accepted FORM (array, Qobj, QutipState through V2) and with every overall factor: the
+    emulator starts from the normalised state."""
+    labs = ("rg", "rg+gg", "rr+gg", "rr+rg+gr") if tier == "quick" else ("rg", "gr", "rr", "rg+gg", "rr+gg", "rr+rg+gr", "rr+rg+gr+gg")
+    return [("initform", form, sc, lab) for form in ("array", "qobj", "v2") for sc in (1.0, 2.0, 0.25, 3j) for lab in labs]
+
+
+def check_initform(form, sc, lab):
+    import qutip
+    from pulser import Pulse, Register, Sequence
+    from pulser.backend import StateResult
+    from pulser_simulation import QutipBackendV2, QutipConfig, QutipEmulator, QutipState
+
+    dev = world_device()
+    seq = Sequence(Register({"q0": (0.0, 0.0), "q1": (60.0, 0.0)}), dev)
+    seq.declare_channel("c", "rydberg_global")
+    seq.add(Pulse.ConstantPulse(100, 0.0, 0.0, 0.0), "c")
+    keys = lab.split("+")
+    order = ["rr", "rg", "gr", "gg"]  # basis of the emulator: r = (1,0), g = (0,1), first atom most significant
+    vec = np.array([sc * (1.0 if k in keys else 0.0) for k in order], dtype=complex)
+    want = np.abs(vec) ** 2 / np.sum(np.abs(vec) ** 2)
+    try:
+        if form == "v2":
+            st = QutipState(qutip.Qobj(vec.reshape(-1, 1), dims=[[2, 2], [1, 1]]), eigenstates=("r", "g"))
+            ob = StateResult(evaluation_times=[1.0])
+            r = QutipBackendV2(seq, config=QutipConfig(observables=[ob], initial_state=st)).run()
+            fin = np.asarray(r.get_result(ob, 1.0).to_qobj().full()).ravel()
+        else:
+            sim = QutipEmulator.from_sequence(seq)
+            sim.set_initial_state(vec if form == "array" else qutip.Qobj(vec.reshape(-1, 1), dims=[[2, 2], [1, 1]]))
+            fin = np.asarray(sim.run().get_final_state().full()).ravel()
+    except (NotImplementedError, ValueError, TypeError) as e:
+        return gridx.crash_finding(e, "setting-the-initial-state", f"{form} {sc} {lab}") or [("@initial-state-refused", "")]
+    got = np.abs(fin) ** 2
+    if abs(got.sum() - 1.0) > 1e-6:
+        return [(f"C11:emulated-state-is-not-normalised:initial-state-as-{form}", f"initial amplitudes {sc} x ({lab}): nothing driven, final state has squared norm {got.sum():.6g}")]
+    if np.abs(got - want).max() > 1e-6:
+        return [(f"C11:emulation-starts-from-another-state:initial-state-as-{form}", f"initial amplitudes {sc} x ({lab}): nothing driven, final probabilities {got.round(6).tolist()}, expected {want.round(6).tolist()}")]
+    return [("@initform", "")]
+
+
 def lspam_cases(tier):
     """Legacy state-preparation errors with 0 < eta < 1: WHICH atoms are badly prepared is decided by scripted uniform draws."""
     out = []
@@ -1132,6 +1204,10 @@ def worker(case):
             return check_lspam(*case[1:])
         if k == "evset":
             return check_evset(*case[1:])
+        if k == "initorder":
+            return check_initorder(*case[1:])
+        if k == "initform":
+            return check_initform(*case[1:])
         if k == "sweep":
             return sweep_case(case[1])
         if k == "phys":
@@ -1153,7 +1229,7 @@ def run(tier, seed):
     res = Result("exploration")
     nmax = 1500 if tier == "quick" else 12000
     cases = [("sweep", T) for T in range(4, nmax + 1)]
-    cases += piecewise_cases(tier) + phys_cases(tier) + reduce_cases(tier) + conv_cases(tier) + tape_cases(tier) + legacy_tape_cases(tier) + lexpect_cases(tier) + lnoisy_cases(tier) + lspam_cases(tier) + evset_cases(tier) + stoch_cases(tier) + emu_history_cases(tier)
+    cases += piecewise_cases(tier) + phys_cases(tier) + reduce_cases(tier) + conv_cases(tier) + tape_cases(tier) + legacy_tape_cases(tier) + lexpect_cases(tier) + lnoisy_cases(tier) + lspam_cases(tier) + evset_cases(tier) + initorder_cases(tier) + initform_cases(tier) + stoch_cases(tier) + emu_history_cases(tier)
     outs = gridx.run(worker, cases, chunksize=8)
     classes = {}
     for c, r in zip(cases, outs):
